@@ -9,7 +9,7 @@ PROP = {
     "rule": "cases = generated scripts of 8-36 messages over real files on disk: open/change/close/save, on-disk writes and deletions with their watched-file events, .emmyrc.json rewrites (2 s debounced workspace reload), didChangeConfiguration, requests, virtual-time advances; a reload trigger is always placed in the middle of the document traffic; 3 schedule seeds per script; "
             "at quiescence an open file must be analysed with its latest editor text, and a file closed before the last reload trigger must be analysed with its disk content (absent if not on disk); distinct = hash of the lock-event interleaving; non-trivial = >= 1 open file judged",
     "min_nontrivial": {"quick": 800, "thorough": 40000},
-    "max_secs": {"quick": 600, "thorough": 1200},
+    "max_secs": {"quick": 600, "thorough": 1500},
     "require_clauses": ["post-reload-state-checked", "reload-triggers", "open-file-judged"],
     "assumptions": COMMON_ASSUME + ["a document closed AFTER the last reload is not judged against the disk (didClose alone does not reload the file; that is outside this property)"],
     "level_text": "Real reload machinery under interleavings produced by seeded yields at every lock request; ~4800 (quick) executions judged against the editor/disk model.",
